@@ -182,6 +182,12 @@ class PathDir:
 
 
 @dataclass(frozen=True)
+class NotDir:
+    """a value that is known NOT to be the directory of the input for some inputs; `why` names the witness"""
+    why: str
+
+
+@dataclass(frozen=True)
 class Tup:
     items: tuple
 
@@ -435,7 +441,12 @@ class Interp:
         if isinstance(e, (ast.GeneratorExp, ast.ListComp)):
             return self.comprehension(e, st, stmt)
         if isinstance(e, ast.Attribute):
-            return Top(dotted(e) or "attr")
+            d = dotted(e)
+            if d in ("os.sep", "os.path.sep"):
+                return S(SEPS, SEPS, True, ONE, ONE, tag="sep", must=CharSet.EMPTY)
+            if d in ("os.extsep", "os.curdir"):
+                return const_str(".")
+            return Top(d or "attr")
         if isinstance(e, (ast.Compare, ast.BoolOp, ast.UnaryOp)):
             return Top("bool")
         return Top(type(e).__name__)
@@ -446,8 +457,8 @@ class Interp:
             return v
         if isinstance(v, I):
             return digits_str()
-        if isinstance(v, Top) and v.what.startswith("call "):
-            raise Opaque(v)
+        if isinstance(v, Top):
+            raise Opaque(v if v.what.startswith("call ") else Top("call <%s>" % v.what))
         return S()
 
     @staticmethod
@@ -523,7 +534,7 @@ class Interp:
                     pieces.append(self.as_str(vals[k]))
                     k += 1
                 else:
-                    return self.derived(S(), stmt, vals, None)
+                    return Top("call %-format")
                 i += 2
             else:
                 pieces.append(const_str(fmt[i]))
@@ -649,6 +660,8 @@ class Interp:
             return Tup((Top("dir"), S()))
         if d == "os.path.dirname" and len(args) == 1:
             v = self.ev(args[0], st, stmt)
+            if isinstance(v, PathDir):
+                return NotDir("it is the parent of the input's directory ('/some/dir/name' -> '/some')")
             return PathDir() if isinstance(v, S) and v.tag == "param0" else Top("dir")
         if d == "os.path.basename" and len(args) == 1:
             v = self.ev(args[0], st, stmt)
@@ -783,6 +796,17 @@ class Interp:
             if len(args[0].value) == 1:
                 return self.split_parts(x, CharSet.of(args[0].value), stmt, right=(meth == "rsplit"))
             return Tup((self.sub_any(x, stmt), self.sub_any(x, stmt)))
+        sepv = self.ev(args[0], st, stmt) if len(args) >= 1 else None
+        if x.tag == "param0" and meth in ("rpartition", "rsplit") and isinstance(sepv, S) and sepv.exact == ONE and sepv.may and sepv.may.issubset(SEPS) \
+                and (meth == "rpartition" and len(args) == 1 or meth == "rsplit" and len(args) == 2 and isinstance(args[1], ast.Constant) and args[1].value == 1):
+            # textual split of the input path at its last separator: the head is NOT os.path.dirname for a file directly below the root
+            head = NotDir("the text before the last separator is '' for a file directly below the root ('/name'), where the directory is '/': "
+                          "os.path.join('', name) is a relative path")
+            base = self.derived(S(FULL - sepv.may, FULL - sepv.may, False, None, None), stmt, [], None)
+            whole = self.derived(S(FULL - sepv.may, FULL - sepv.may, False, None, None), stmt, [], None)
+            if meth == "rsplit":
+                return Tup((head, base))
+            return Fork((Tup((head, sepv, base)), Tup((PathDir(), const_str(""), whole))))
         if meth in ("rpartition", "partition") and len(args) == 1 and isinstance(args[0], ast.Constant) and isinstance(args[0].value, str) and len(args[0].value) == 1:
             sep = args[0].value
             head, tail = self.split_parts(x, CharSet.of(sep), stmt, right=(meth == "rpartition")).items
@@ -797,6 +821,15 @@ class Interp:
             return Fork((found, notfound))
         if meth in ("rfind", "find", "index", "rindex", "count"):
             return I()
+        if meth == "translate" and len(args) == 1 and not e.keywords:
+            tab = self.translate_table(args[0], st, stmt)
+            if tab is None:
+                return Top("call str.translate")
+            out = x
+            for cs, r in tab:
+                self.site("char_cleaners", e)
+                out = self.char_sub(out, cs, r, stmt)
+            return out
         if meth in ("rstrip", "strip") and len(args) <= 1:
             if not args:
                 cs = RL.category_set("CATEGORY_SPACE", False)
@@ -814,7 +847,79 @@ class Interp:
             return self.derived(S(x.may, x.last, False, x.ub, None), stmt, [x], None)
         if meth in ("startswith", "endswith", "isdigit", "isalpha"):
             return Top("bool")
-        return self.derived(S(), stmt, [x], None)
+        return Top("call str." + meth)  # a method this analysis does not model: undecided, never a verdict
+
+    def fold_codepoints(self, e, depth=0):
+        """constant set of code points: [ord(c) for c in 'lit'], list(range(..)), literals, +, module constants"""
+        if depth > 6:
+            return None
+        e = self.const_expr(e)
+        if isinstance(e, ast.Constant) and type(e.value) is int:
+            return {e.value}
+        if isinstance(e, ast.Constant) and isinstance(e.value, str):
+            return {ord(c) for c in e.value}
+        if isinstance(e, ast.Call) and dotted(e.func) == "ord" and len(e.args) == 1:
+            a = self.const_expr(e.args[0])
+            if isinstance(a, ast.Constant) and isinstance(a.value, str) and len(a.value) == 1:
+                return {ord(a.value)}
+            return None
+        if isinstance(e, (ast.List, ast.Tuple, ast.Set)):
+            out = set()
+            for x in e.elts:
+                v = self.fold_codepoints(x, depth + 1) if not (isinstance(x, ast.Constant) and isinstance(x.value, str)) else None
+                if v is None:
+                    return None
+                out |= v
+            return out
+        if isinstance(e, ast.BinOp) and isinstance(e.op, (ast.Add, ast.BitOr)):
+            a, b = self.fold_codepoints(e.left, depth + 1), self.fold_codepoints(e.right, depth + 1)
+            return a | b if a is not None and b is not None else None
+        if isinstance(e, ast.Call) and dotted(e.func) in ("list", "set", "tuple", "frozenset", "sorted") and len(e.args) == 1:
+            return self.fold_codepoints(e.args[0], depth + 1)
+        if isinstance(e, ast.Call) and dotted(e.func) == "range" and 1 <= len(e.args) <= 2 and not e.keywords:
+            b = [self.const_expr(a) for a in e.args]
+            if all(isinstance(a, ast.Constant) and type(a.value) is int for a in b):
+                return set(range(*[a.value for a in b]))
+            return None
+        if isinstance(e, ast.Call) and dotted(e.func) == "map" and len(e.args) == 2 and dotted(e.args[0]) == "ord":
+            a = self.const_expr(e.args[1])
+            return {ord(c) for c in a.value} if isinstance(a, ast.Constant) and isinstance(a.value, str) else None
+        if isinstance(e, (ast.ListComp, ast.SetComp, ast.GeneratorExp)) and len(e.generators) == 1 and not e.generators[0].ifs \
+                and isinstance(e.generators[0].target, ast.Name):
+            g = e.generators[0]
+            src = self.const_expr(g.iter)
+            if isinstance(e.elt, ast.Call) and dotted(e.elt.func) == "ord" and len(e.elt.args) == 1 and isinstance(e.elt.args[0], ast.Name) \
+                    and e.elt.args[0].id == g.target.id and isinstance(src, ast.Constant) and isinstance(src.value, str):
+                return {ord(c) for c in src.value}
+            if isinstance(e.elt, ast.Name) and e.elt.id == g.target.id:
+                return self.fold_codepoints(g.iter, depth + 1)
+        return None
+
+    def translate_table(self, e, st, stmt):
+        """str.translate table with one replacement for a constant set of characters -> [(CharSet, replacement S)] or None"""
+        e = self.const_expr(e)
+        if isinstance(e, ast.Call) and dotted(e.func) == "str.maketrans" and len(e.args) == 1:
+            e = self.const_expr(e.args[0])
+        cps, rep = None, None
+        if isinstance(e, ast.Call) and dotted(e.func) == "dict.fromkeys" and 1 <= len(e.args) <= 2:
+            cps = self.fold_codepoints(e.args[0])
+            rep = e.args[1] if len(e.args) == 2 else ast.Constant(None)
+        elif isinstance(e, ast.DictComp) and len(e.generators) == 1 and not e.generators[0].ifs and isinstance(e.generators[0].target, ast.Name):
+            g = e.generators[0]
+            keys = ast.ListComp(elt=e.key, generators=e.generators)
+            cps = self.fold_codepoints(keys)
+            rep = e.value
+            if any(isinstance(n, ast.Name) and n.id == g.target.id for n in ast.walk(rep)):
+                return None
+        if cps is None or rep is None or any(not (0 <= c <= 0x10FFFF) for c in cps):
+            return None
+        if isinstance(rep, ast.Constant) and rep.value is None:
+            r = const_str("")
+        else:
+            r = self.ev(rep, st, stmt)
+        if not isinstance(r, S):
+            return None
+        return [(CharSet((c, c) for c in cps), r)]
 
     def sub_any(self, x, stmt):
         return self.derived(S(x.may, x.may, False, x.ub, self.fresh_exact("len(part)", x.ub, stmt)), stmt, [x], None)
@@ -857,10 +962,8 @@ class Interp:
         r = self.ev(rargs[0], st, stmt)
         if not isinstance(x, S):
             return self.as_str(x)
-        if not isinstance(r, S) or len(rargs) > 2 or haskw:
-            return self.derived(S(), stmt, [x], None)
-        if rx is None:
-            return self.derived(S(FULL, FULL, False, None, None), stmt, [x], None)
+        if not isinstance(r, S) or len(rargs) > 2 or haskw or rx is None:
+            return Top("call re.sub")  # replacement function / count / flags / non-literal pattern: undecided
         try:
             cs = RL.single_char_language(rx)
             tc = RL.trailing_char_class(rx) if cs is None else None
@@ -1297,10 +1400,13 @@ def analyse(fnode, sink, module=None):
             name, dval = val, None
         elif isinstance(val, JoinV) and isinstance(val.name, S):
             name, dval = val.name, val.d
-            if not isinstance(dval, PathDir):
-                if isinstance(dval, Top) and dval.what.startswith("call ") and not dval.what.startswith("call os.path"):
-                    _err("the directory argument of `%s` comes from `%s(...)`, which this analysis cannot interpret" % (norm(rnode)[:80], dval.what[5:]))
-                failures["dir"].setdefault(canon(rnode, fnode), (rnode, "`%s`: the directory argument is not the directory part of the input path" % norm(rnode)))
+            if isinstance(dval, NotDir):
+                failures["dir"].setdefault(canon(rnode, fnode), (rnode, "`%s`: the directory argument is not the directory of the input path: %s" % (norm(rnode), dval.why)))
+            elif isinstance(dval, S) and dval.tag == "param0":
+                failures["dir"].setdefault(canon(rnode, fnode), (rnode, "`%s`: the name is joined onto the whole input path, not onto its directory" % norm(rnode)))
+            elif not isinstance(dval, PathDir):
+                _err("the directory argument of `%s` is a value this analysis cannot relate to the input's directory (%s)"
+                     % (norm(rnode)[:80], getattr(dval, "what", type(dval).__name__)))
             elif name.may & SEPS:
                 failures["dir"].setdefault(canon(rnode, fnode), (rnode, "`%s`: the name can contain a path separator, so the result can leave the input's directory" % norm(rnode)))
         else:
